@@ -152,6 +152,12 @@ def finish(domain, problem, triplets, joint, agents, exporter_cls, source_text=N
         if problem is not None:
             out["with"] = observe_parse(domain, problem, path, agents, triplets)
         out["deduced"] = observe_parse(domain, None, path, agents, triplets)
+        try:
+            o = TrajectoryParser(domain, problem).parse_trajectory(path, executing_agents=agents,
+                                                                   strict_trajectory_validation=True)
+            out["strict"] = {"value": len(o)}
+        except Exception as e:  # noqa
+            out["strict"] = exc(e)
     finally:
         path.unlink()
     if source_text is not None:
